@@ -170,6 +170,9 @@ func Shrink(raw json.RawMessage) []json.RawMessage {
 				return true
 			})
 		}
+		if sc.Pkgs[pi].RulesLink {
+			emit(func(c *Scenario) bool { c.Pkgs[pi].RulesLink = false; return true })
+		}
 		if sc.Pkgs[pi].BlankMeta {
 			emit(func(c *Scenario) bool { c.Pkgs[pi].BlankMeta = false; return true })
 		}
@@ -192,6 +195,15 @@ func Shrink(raw json.RawMessage) []json.RawMessage {
 	}
 	if sc.PipeBreak != 0 {
 		emit(func(c *Scenario) bool { c.PipeBreak = 0; return true })
+	}
+	if sc.LinkRoots {
+		emit(func(c *Scenario) bool { c.LinkRoots = false; return true })
+	}
+	for vi := range sc.Variants {
+		vi := vi
+		if sc.Variants[vi].Tracer != "" {
+			emit(func(c *Scenario) bool { c.Variants[vi].Tracer = ""; return true })
+		}
 	}
 	if sc.OtherPack {
 		emit(func(c *Scenario) bool { c.OtherPack = false; return true })
